@@ -301,6 +301,26 @@ def check(rep, F, tier, replay=None):
             continue
         rep.inst("CAP-range")
         cap_range(rep, F, fid, key)
+    # (6b) the captured bytes reach the result on EVERY success path (no path returns the value without them)
+    from ruleutil import run_mustflow
+    run_mustflow(rep, F, [
+        {"fn": "serialization::utils::deserilized_with_orig_bytes", "sources": ["slice::<impl [T]>::to_vec"], "what": "the copied original bytes"},
+        {"fn": "<PlutusData as serialization::traits::Deserialize>::deserialize", "sources": ["slice::<impl [T]>::to_vec"], "what": "the copied original bytes of the datum"},
+    ])
+    import mustpass as mp
+    rep.rule("CAP-always", "every success return of a byte-capturing reader is dominated by the call that copies the original bytes (no success path skips the capture)")
+    for key in ("serialization::utils::deserilized_with_orig_bytes", "<PlutusData as serialization::traits::Deserialize>::deserialize"):
+        fid = fn1(rep, F, key)
+        if not fid:
+            continue
+        caps = [c.bb for c in F.calls(fid) if (c.to or "").endswith("to_vec")]
+        fn = F.fns[fid]
+        for bi, kind, loc in mp.success_stores(F, fid):
+            if kind not in ("ok", "agg") and not kind.startswith("call:"):
+                continue
+            rep.inst("CAP-always")
+            if not any(mp.dominated_by(fn, bi, cb) for cb in caps):
+                rep.violation("CAP-always", key, "%s has a success return (%s) that is not dominated by the copy of the original bytes: some decoded values come back without their bytes and are re-encoded canonically" % (key, facts.loc_str(loc, fn)), {"function": fid})
     # (7) PlutusData co-update + writer
     rep.rule("PD-coupdate", "every function that stores PlutusData.datum also stores original_bytes (so stale bytes can never describe a different datum)")
     npd = 0
